@@ -70,10 +70,16 @@ def gen_class(rnd, name):
     return {"name": name, "fields": fields, "required": req, "additional": False}
 
 
+def class_src(c):
+    """Source of a class AST.  `shared_src` (harness/c18shared.py): the source as written by a user who binds a
+    Field INSTANCE to a module-level name and uses it in several declarations."""
+    return c["shared_src"] if c.get("shared_src") else S.class_src(c)
+
+
 def realise(c):
     ns = {}
     exec(IMPORTS, ns)
-    exec(S.class_src(c), ns)
+    exec(class_src(c), ns)
     return ns[c["name"]], ns
 
 
@@ -457,7 +463,7 @@ class Case:
 
     def source(self):
         return IMPORTS + "from typedpy.errors import standard_readable_error_for_typedpy_exception\n\n" + \
-            S.class_src(self.cast) + "\nkwargs = dict(%s)\n" % ", ".join("%s=%s" % (k, G.py_src(v)) for k, v in self.kw) + \
+            class_src(self.cast) + "\nkwargs = dict(%s)\n" % ", ".join("%s=%s" % (k, G.py_src(v)) for k, v in self.kw) + \
             "document = %r\n" % (self.doc,)
 
     def fresh(self):
@@ -1169,6 +1175,9 @@ def replay(obj):
         r = R()
         nested_checks(r, only=(obj.get("group", "NESTED_SRC"), obj["doc"]))
         return 1 if getattr(r, "n", 0) else 0
+    if obj.get("shared_history"):
+        from harness import c18shared
+        return c18shared.replay(obj, _rereify)
     if "cls_ast" not in obj:
         print(obj.get("detail", "no concrete input in this replay file"))
         return 2
@@ -1181,7 +1190,7 @@ def replay(obj):
         def stat(self, *a, **k): pass
     streams = {"render": [], "construct": [], "deser": [], "parse": []}
     fails = evaluate_case(case, Rep(), streams)
-    print(S.class_src(case.cast))
+    print(class_src(case.cast))
     print("kwargs   :", {k: v for k, v in case.py.items()})
     print("document :", case.doc)
     for mode in ("ctor", "deser"):
@@ -1304,6 +1313,19 @@ def run(rep, tier):
             print("[c18] key %4d %s" % (n, k))
     assert Structure.failing_fast()
     rep.obligation("state:fail-fast-switch-restored", Structure.failing_fast(), "")
+
+    # ---- Field instances shared between declarations x histories of operations on one class
+    from harness import c18shared
+    try:
+        n_hist = c18shared.run(rep, tier, core.seed())
+    finally:
+        Structure.set_fail_fast(True)
+    if os.environ.get("C18_TIMING"):
+        print("[c18] with %d shared-instance histories: %.1fs" % (n_hist, _t.time() - _t0))
+    if os.environ.get("C18_KEYS"):
+        for v in rep.violations:
+            if v["key"].startswith("C18/shared"):
+                print("[c18] key %4d %s" % (v["count"], v["key"]))
 
     # ---- the validation chains: real field objects against the generated guard programs
     from harness import c18guards
@@ -1438,6 +1460,9 @@ def run(rep, tier):
              "at top level and in one (quick: rotating with the seed; thorough: every) position among Array/Deque item, positional "
              "item, Tuple, Set, Map key, Map value; each under construction and Deserializer, fail-fast on and off; guard: every "
              "leaf kind x (wrong-value classes + boundary values) and random scalar fields run through the real validation chain "
-             "and through the generated chain inside Coq; nested: fixed two-level and generated three-level documents with 1-3 "
+             "and through the generated chain inside Coq; accounting: every bound / sign / size / uniqueness / length violation of "
+             "the right class in every position next to a field the deserializer rejects; shared: one Field instance used in two "
+             "declarations (every ordered pair of positions x leaf kinds, quick: 2 rotating leaves) x a history of 5 argument sets on "
+             "one class x 4 configurations; nested: fixed two-level and generated three-level documents with 1-3 "
              "point corruptions. distinct = distinct (field shapes, corruption kinds) / lattice point / (kind, value class, "
              "outcome); non-trivial = at least one invalid field")
